@@ -39,7 +39,24 @@ fn main() {
     if args.first().map(|s| s.as_str()) == Some("C20-cold") {
         // child process of the C20 cold-start sub-check: vw C20-cold --seed N
         let seed: u64 = args.get(2).and_then(|s| s.parse().ok()).unwrap_or(1);
-        match vcore::c20::cold_process(seed) {
+        // program bytes come from the parent (a file of `hex hex` lines), so that nothing in this process has touched
+        // the library before the threads start
+        let file_text = args.get(4).map(|p| std::fs::read_to_string(p).unwrap_or_default()).unwrap_or_default();
+        let expected: Vec<String> = file_text.lines().filter_map(|l| l.strip_prefix("= ")).map(|h| String::from_utf8_lossy(&vcore::runner::unhex(h)).into_owned()).collect();
+        let progs: Vec<(Vec<u8>, Vec<u8>)> = match args.get(4) {
+            Some(_) => file_text
+                .lines()
+                .filter(|l| !l.starts_with("= "))
+                .filter_map(|l| {
+                    let mut it = l.split_whitespace();
+                    let p = vcore::runner::unhex(it.next()?);
+                    let w = it.next().map(|w| if w == "-" { vec![] } else { vcore::runner::unhex(w) }).unwrap_or_default();
+                    Some((p, w))
+                })
+                .collect(),
+            None => vcore::c20::cold_inputs(seed),
+        };
+        match vcore::c20::cold_process(seed, &progs, &expected) {
             Ok(n) => {
                 println!("consistent {}", n);
                 std::process::exit(0);
